@@ -13,7 +13,9 @@ whole programs.
    seeded opcode choices for 1/2/4-byte elements; every program runs 14 times on one reused
    executor with varying n, m, misalignment and stride, on avx, sse, mmx and emulation
    (harness/h_prog; TLC validates every destination row, accumulator and fence against OrcProg,
-   Trace_Prog).
+   Trace_Prog).  Every same-size binary opcode is also placed, systematically, in the three
+   templates where the register allocator can give the destination the register of either
+   operand (both operands one temporary; one operand dying while the other stays live).
 3. Design level: spec/X86Loop.tla -- the split of n into head / body / tail for every start
    alignment, loop shift and n -- is model-checked (each index processed exactly once).
 """
@@ -56,6 +58,30 @@ def prog_plan(ops, rng, nprog):
         if w * mult > 8 or (tpl == "acc" and mult != 1):
             mult = 1
         lines.append("%s %d %s %s %s %d %d" % (tpl, w, o1, o2, o3, mult, rng.randrange(1, 10 ** 6)))
+    return lines
+
+
+def systematic_plan(ops, quick):
+    """every same-size binary opcode in the templates where register allocation can hand the destination the
+    register of either operand: both operands the same temporary (repeat), the second operand dying while the first
+    stays live (three), the first dying while the second stays live (live)"""
+    lines = []
+    k = 0
+    for o in ops:
+        n = o["name"]
+        if len(o["dest"]) != 1 or "ACCUMULATOR" in o["flags"] or n.startswith(c02.LOADS) or "SCALAR" in o["flags"]:
+            continue
+        if "FLOAT" in o["flags"] and n not in ("orf", "andf"):
+            continue
+        sd = o["dest"][0]; ss = o["src"]
+        if not (len(ss) == 2 and ss[0] == ss[1] == sd):
+            continue
+        for tpl in ("repeat", "three", "live"):
+            for mult in ((1,) if quick else (1, 2, 4)):
+                if sd * mult > 8:
+                    continue
+                k += 1
+                lines.append("%s %d %s %s %s %d %d" % (tpl, sd, n, n, n, mult, 1000 + k))
     return lines
 
 
@@ -141,6 +167,9 @@ def run(ctx):
     traces = c02.run_paths(ctx, lines, ["avx", "sse", "mmx"], "c01op")
     c02.validate_ops(ctx, traces, "c01op", "C01")
     plines = prog_plan(ops_all, ctx.rng, 96 if quick else 1600)
+    slines = systematic_plan(ops_all, quick)
+    ctx.cov["systematic_programs"] = len(slines)
+    plines = slines + plines
     ctx.cov["programs"] = len(plines)
     ctx.sample(lines[0]); ctx.sample(plines[0]); ctx.sample(plines[-1])
     ptraces = run_progs(ctx, plines, ["avx", "sse", "mmx", "emu"], "c01prog")
